@@ -43,12 +43,12 @@ CONSTANTS
     N,                     \* namespaces are 1..N, numbered in public-key order (BTreeMap order)
     AcceptNoRoot,          \* deviation D1 (KNOWN FINDING, open): `SignedRefs::verify` accepts a refs
                            \* blob without `refs/rad/root` (no binding to a repository). TRUE = code.
-    RefsAtUsesAdvertised,  \* historical deviation (fixed 22ee63d): with `refs_at`, signed refs were
+    RefsAtUsesAdvertised,  \* historical deviation (fixed e45f16a): with `refs_at`, signed refs were
                            \* loaded from the advertised tip instead of the announced commit
-    RefsAtIgnoresBlock,    \* historical deviation (fixed 65d1a8b): announced sigrefs of blocked
+    RefsAtIgnoresBlock,    \* historical deviation (fixed 680f9a3): announced sigrefs of blocked
                            \* peers were applied
-    KeepStaleRad,          \* historical deviation (fixed f5433ab): `refs/rad/*` never pruned
-    SkipUnloaded           \* historical deviation (fixed 82b38a1): only remotes whose signed refs
+    KeepStaleRad,          \* historical deviation (fixed a18a1ad): `refs/rad/*` never pruned
+    SkipUnloaded           \* historical deviation (fixed 8b012aa): only remotes whose signed refs
                            \* were loaded went through the validation loop
 
 NS == 1..N
